@@ -187,7 +187,10 @@ def part_special(ctx):
     # matrix functions
     import numpy as np
     for expr, want in [('norm([3,4])', 5), ('abs([3,4])', 5), ('norm([[1,2],[3,4]])', math.sqrt(30)), ('trans([[1,2],[3,4]])', [[1, 3], [2, 4]]), ('ctrans([[1,i],[0,1]])', [[1, 0], [-1j, 1]]), ('adj([[1,i],[0,1]])', [[1, 0], [-1j, 1]]),
-                       ('det([[1,2],[3,4]])', -2), ('trace([[1,2],[3,4]])', 5), ('cross([1,0,0],[0,1,0])', [0, 0, 1]), ('cross([1,2,3],[4,5,6])', [-3, 6, -3]), ('det([[2,0,0],[0,3,0],[0,0,4]])', 24), ('trans([1,2,3])', [1, 2, 3])]:
+                       ('det([[1,2],[3,4]])', -2), ('trace([[1,2],[3,4]])', 5), ('cross([1,0,0],[0,1,0])', [0, 0, 1]), ('cross([1,2,3],[4,5,6])', [-3, 6, -3]), ('det([[2,0,0],[0,3,0],[0,0,4]])', 24), ('trans([1,2,3])', [1, 2, 3]),
+                       # complex entries: the magnitude conjugates (|v|^2 = sum |v_k|^2, not v.v)
+                       ('abs([3*i,4*i])', 5), ('abs([1,i])', math.sqrt(2)), ('norm([1,i])', math.sqrt(2)), ('abs([0-3,4*i])', 5), ('norm([[i,1],[0,2*i]])', math.sqrt(6)),
+                       ('abs([1+i,1-i])', 2), ('abs(3*i)', 3), ('abs(0-2.5)', 2.5), ('norm([3*i,0,4])', 5), ('ctrans([i,2])', [-1j, 2]), ('trace([[i,1],[1,i]])', 2j), ('det([[i,0],[0,i]])', -1)]:
         k, v = D.run_impl(lambda: ev(expr, matrix=True))
         ok = k == 'out' and np.shape(v) == np.shape(want) and np.allclose(np.asarray(v, dtype=complex), np.asarray(want, dtype=complex), atol=1e-9)
         if not ok:
